@@ -1387,7 +1387,12 @@ func interval(facts []intFact) (lo, hi int64, neq []int64) {
 // boolFacts: is the boolean identified by same() known true / false at `at`;
 // understands v, !v, v == true/false, v != true/false.
 func boolFacts(at ssa.Instruction, same func(ssa.Value) bool) (isTrue, isFalse bool) {
-	for _, ce := range dominatingConds(at.Block()) {
+	return boolFactsOf(dominatingConds(at.Block()), same)
+}
+
+// boolFactsOf: the same over an explicit list of condition edges (e.g. those holding on one edge into a phi).
+func boolFactsOf(conds []condEdge, same func(ssa.Value) bool) (isTrue, isFalse bool) {
+	for _, ce := range conds {
 		v, taken := ce.cond, ce.taken
 		for {
 			if u, ok := v.(*ssa.UnOp); ok && u.Op == token.NOT {
